@@ -25,28 +25,6 @@ def backing(H, c):
     return H.fld("_context", c)
 
 
-class SignalWaitEvent(FnSpec):
-    """A-WAIT (assumed; bounded evidence: the C10 harness): Signal.wait_event(filter) subscribes to the signal before its first
-    suspension, so every event dispatched after the call began is considered; it returns the first such event accepted by the filter."""
-    qual = WAIT
-    assumed = "A-WAIT"
-    properties = ("C06",)
-    param_types = {"filter": ANY}
-    modifies = "rely"
-    suspends = True
-    may_raise = True
-    check_guarantee = False
-
-    def requires(self, F):
-        return []
-
-    def ensures(self, F):
-        return []
-
-    def raises(self, F):
-        return []
-
-
 class CCGetResource(FnSpec):
     """C06: ComponentContext.get_resource(type, name, optional=...)"""
     qual = GETRES
@@ -188,10 +166,7 @@ class CCAddResourceFactory(_CCAdd):
 
 
 def register(reg):
-    reg.assumptions_text["A-WAIT"] = ("Signal.wait_event(filter) subscribes before its first suspension and returns the first event dispatched "
-                                      "afterwards that the filter accepts (bounded evidence: C10 harness; stream_events/wait_event are generator "
-                                      "context managers outside pyvc's reach)")
-    for s in (SignalWaitEvent, CCGetResource, CCWaitFilter, CCAddResource, CCAddResourceFactory):
+    for s in (CCGetResource, CCWaitFilter, CCAddResource, CCAddResourceFactory):
         reg.add(s)
 
 
